@@ -272,7 +272,7 @@ let rec jsprint_case_gen ?(top = PrintModel.coq_OpAssign) rw sx =
     | PrintModel.TLB -> "[" | PrintModel.TRB -> "]" | PrintModel.TDot -> ".") out)
 
 (* ---- Js statement optimiser (Js/StmtModel.v) ---- *)
-let jsstmt_case fn sx =
+let jsstmt_case ?(print = false) ?(readback = false) fn sx =
   let toks = ref (Stdlib.List.filter (fun x -> x <> "") (split ' ' sx)) in
   let next () = match !toks with t :: r -> toks := r; t | [] -> failwith "jsstmt sexpr" in
   let rec pe () =
@@ -302,6 +302,27 @@ let jsstmt_case fn sx =
   and pl () = let n = int_of_string (next ()) in Stdlib.List.init n (fun _ -> ()) |> Stdlib.List.map (fun () -> ps ()) in
   (match next () with "L" -> () | _ -> failwith "jsstmt list");
   let l = pl () in
+  if readback then begin
+    (* the statement of Js/StmtPrintProofs.parse_print evaluated on this case: the optimised list is printable, and parsing
+       its printed tokens gives the tree the printer means *)
+    let t = PrintGen.coq_T_gen and ef = nat_of_int 200 in
+    let o = StmtModel.optimize_body t (fn = "1") l in
+    if not (StmtParse.printable_list t ef o) then "not-printable"
+    else match StmtParse.parse_program (StmtPrint.print_list t ef o) with
+      | None -> "parse-fails"
+      | Some p -> if p = StmtParse.canon_list t ef o then "ok" else "other-tree"
+  end else
+  if print then begin
+    let toks = StmtPrint.print_body PrintGen.coq_T_gen (nat_of_int 200) (fn = "1") l in
+    let etok = function
+      | PrintModel.TAtom s -> ocaml_string s
+      | PrintModel.TOp n -> (try Stdlib.List.assoc (ocaml_string n) js_surface with Not_found -> "?" ^ ocaml_string n)
+      | PrintModel.TQ -> "?" | PrintModel.TColon -> ":" | PrintModel.TL -> "(" | PrintModel.TR -> ")"
+      | PrintModel.TLB -> "[" | PrintModel.TRB -> "]" | PrintModel.TDot -> "." in
+    Stdlib.String.concat " " (Stdlib.List.concat_map (function
+      | StmtPrint.SK s -> [ocaml_string s]
+      | StmtPrint.SE e -> Stdlib.List.map etok e) toks)
+  end else
   let out = StmtModel.optimize_body PrintGen.coq_T_gen (fn = "1") l in
   let b = Buffer.create 256 in
   let w s = Buffer.add_string b s; Buffer.add_char b ' ' in
@@ -372,6 +393,8 @@ let register (reg : string -> (string list -> string) -> unit) =
   reg "jsprint" (function [sx] -> jsprint_case_gen false sx | _ -> "BADARGS");
   reg "jsrw" (function [sx] -> jsprint_case_gen true sx | _ -> "BADARGS");
   reg "jsstmt" (function [fn; sx] -> jsstmt_case fn sx | _ -> "BADARGS");
+  reg "jsstmtr" (function [sx] -> jsstmt_case ~readback:true "1" sx | _ -> "BADARGS");
+  reg "jsstmtp" (function [sx] -> jsstmt_case ~print:true "1" sx | _ -> "BADARGS");
   reg "jsrw0" (function [sx] -> jsprint_case_gen ~top:PrintModel.coq_OpExpr true sx | _ -> "BADARGS");
   reg "cssbox" (function [v] -> Stdlib.String.concat "," (Stdlib.List.map (fun n -> string_of_int (int_of_nat n)) (CssBox.box_collapse_nat (intlist v))) | _ -> "BADARGS");
   reg "tokbuf" (function [t; o] -> tokbuf t o | _ -> "BADARGS");
